@@ -369,6 +369,14 @@ fn singles(o: &Opts, r: &mut Rng) -> Vec<Single> {
         "2024/01/01 x\n  A  0,000.05 USD\n  B\n",
         "2024/01/01 x\n  A  (1 USD / 0)\n  B\n",
         "2024/01/01 x\n  A  (1 USD / 0 USD)\n  B\n",
+        "2024/01/01 x\n  A  (1 / 0)\n  B\n",
+        "2024/01/01 x\n  A  (0 / 0)\n  B\n",
+        "2024/01/01 x\n  A  ((2 * 3) / (1 - 1))\n  B\n",
+        "2024/01/01 x\n  A  (1 / 0 USD)\n  B\n",
+        "2024/01/01 x\n  A  (1 / (1 USD - 1 USD))\n  B\n",
+        "2024/01/01 x\n  A  1 USD @ (1 EUR / 0)\n  B\n",
+        "2024/01/01 x\n  A  1 USD = (1 USD / (0 * 5))\n  B\n",
+        "2024/01/01 x\n  A  1 USD {(2 EUR / 0.00)}\n  B\n",
         "2024/01/01 x\n  A  1 USD @ 0 EUR\n  B\n",
         "2024/01/01 x\n  A  1 USD {0 EUR}\n  B\n",
         "2024/01/01 x\n  A  = 0\n",
@@ -487,6 +495,53 @@ fn singles(o: &Opts, r: &mut Rng) -> Vec<Single> {
             }
         }
         v.push(single(text, "booked"));
+    }
+    // numerically adversarial valid ledgers: declared formats, half-unit and sub-precision
+    // residues, zero amounts with @ / @@ / {} / {{}}, two- and three-commodity residuals (the
+    // enumerated boundary set of C01), sub-precision residues beside another commodity, and
+    // generated ledgers biased to zeros, costs, lots, formats and unbalanced transactions
+    for es in crate::c01::boundary_cases() {
+        v.push(single(crate::ledger::render(&es).text, "numeric-boundary"));
+    }
+    for dp in [0u32, 2, 3] {
+        let unit = 10i64.pow(3 - dp.min(3)); // one unit of the declared precision, in thousandths
+        for residue in [0i64, 1, unit / 2 - 1, unit / 2, unit / 2 + 1, unit - 1, unit, -1, -(unit / 2), -(unit / 2) - 1] {
+            for other in ["-5 EUR", "5 EUR", "0 EUR", "0.004 EUR", "-5 EUR @ 2 JPY", "-5 EUR {2 JPY}", "(1 EUR - 1 EUR)"] {
+                for three in [false, true] {
+                    let fmt = match dp {
+                        0 => "1,000",
+                        2 => "1,000.00",
+                        _ => "1,000.000",
+                    };
+                    let a = 10_000 + residue;
+                    let mut t = format!(
+                        "commodity USD\n  format {} USD\n\n2024/01/01 x\n  A  {}.{:03} USD\n  B  -10.000 USD\n  C  {}\n",
+                        fmt,
+                        a / 1000,
+                        a % 1000,
+                        other
+                    );
+                    if three {
+                        t.push_str("  D  7 JPY\n");
+                    }
+                    v.push(single(t, "numeric-residue"));
+                }
+            }
+        }
+    }
+    let n = if o.thorough { 3000 } else { 150 };
+    for k in 0..n {
+        let mut b = crate::ledger::Bias::default_bias();
+        b.format_pct = 90;
+        b.zero_pct = 25;
+        b.cost_pct = 40;
+        b.lot_pct = 25;
+        b.unbalanced_pct = if k % 2 == 0 { 70 } else { 10 };
+        b.omit_pct = 15;
+        b.assert_pct = 10;
+        b.max_txns = 3;
+        let es = crate::ledger::gen_ledger(r, &b);
+        v.push(single(crate::ledger::render(&es).text, "numeric-random"));
     }
     // random strings
     let n = if o.thorough { 6000 } else { 600 };
